@@ -18,6 +18,26 @@ def main():
         time.sleep(timeout)
         sys.stderr.write('Timeout (scenario watchdog %.0fs)!\n' % timeout)
         faulthandler.dump_traceback(all_threads=True)
+        # kernel-side view of our children (pool workers): part of the witness
+        try:
+            me = os.getpid()
+            for d in os.listdir('/proc'):
+                if not d.isdigit():
+                    continue
+                try:
+                    st = open('/proc/%s/stat' % d).read()
+                    rest = st[st.rindex(')') + 2:].split()
+                    if int(rest[1]) != me:
+                        continue
+                    status = open('/proc/%s/status' % d).read()
+                    sig = ' '.join(ln.replace('\t', '') for ln in status.splitlines()
+                                   if ln.startswith(('SigBlk', 'SigIgn', 'SigCgt', 'SigPnd', 'ShdPnd')))
+                    sys.stderr.write('child pid=%s state=%s wchan=%s %s\n' % (
+                        d, rest[0], open('/proc/%s/wchan' % d).read(), sig))
+                except Exception:
+                    pass
+        except Exception:
+            pass
         sys.stderr.flush()
         os._exit(97)
     threading.Thread(target=watchdog, daemon=True).start()
